@@ -268,12 +268,17 @@ type world struct {
 
 var w0notes []string
 
+// shrinkPoolsOpt is set by opt_pools.go when the optional overlay is part of the build.
+var shrinkPoolsOpt func()
+
 func newWorld(cfg bConfig) *world {
 	ir.InitWriterGlobals()
 	config.Cloki.Setting.SYSTEM_SETTINGS.RetryAttempts = cfg.Retry
 	config.Cloki.Setting.SYSTEM_SETTINGS.RetryTimeoutS = 0
 	service.CreateColPools(0)
-	if !smallPools() { // same pools, small initial capacities; located by type, see pools.go
+	if shrinkPoolsOpt != nil {
+		shrinkPoolsOpt() // optional overlay (tag verifopt): same pools, small initial capacities
+	} else if !smallPools() { // the same through exported names only, creator located by type, see pools.go
 		w0notes = append(w0notes, "column pools keep their production capacities (creator function not found by type): same verdicts, slower")
 	}
 	clusters := map[string][2]string{"ss": {"", ""}, "cc_same": {"c1", "c1"}, "cc_diff": {"c1", "c2"}, "cs": {"c1", ""}}[cfg.topo()]
